@@ -201,33 +201,71 @@ thread_local! {
     static PEAK: Cell<usize> = const { Cell::new(0) };
 }
 
+/// Requests of at least this size are served by an anonymous MAP_NORESERVE mapping instead of
+/// malloc: a hostile length field that makes the crate reserve tens of gigabytes then shows up
+/// as an ordinary "peak allocation" failure of the case (with shrinking and a replay file)
+/// instead of aborting the whole process in `handle_alloc_error`.
+const HUGE: usize = 1 << 30;
+
+unsafe extern "C" {
+    fn mmap(addr: *mut u8, len: usize, prot: i32, flags: i32, fd: i32, off: i64) -> *mut u8;
+    fn munmap(addr: *mut u8, len: usize) -> i32;
+}
+
+unsafe fn huge_alloc(size: usize) -> *mut u8 {
+    // PROT_READ|PROT_WRITE = 3; MAP_PRIVATE|MAP_ANONYMOUS|MAP_NORESERVE = 0x2|0x20|0x4000 (Linux)
+    let p = unsafe { mmap(std::ptr::null_mut(), size, 3, 0x2 | 0x20 | 0x4000, -1, 0) };
+    if p as isize == -1 { std::ptr::null_mut() } else { p }
+}
+
+fn note_alloc(added: usize, removed: usize) {
+    let _ = LIVE.try_with(|c| {
+        let v = c.get().wrapping_sub(removed).wrapping_add(added);
+        c.set(v);
+        let _ = PEAK.try_with(|p| {
+            if v > p.get() && v < (1usize << 60) {
+                p.set(v)
+            }
+        });
+    });
+}
+
 unsafe impl std::alloc::GlobalAlloc for CountingAlloc {
     unsafe fn alloc(&self, l: std::alloc::Layout) -> *mut u8 {
-        let _ = LIVE.try_with(|c| {
-            let v = c.get().wrapping_add(l.size());
-            c.set(v);
-            let _ = PEAK.try_with(|p| {
-                if v > p.get() && v < (1usize << 60) {
-                    p.set(v)
-                }
-            });
-        });
+        note_alloc(l.size(), 0);
+        if l.size() >= HUGE && l.align() <= 4096 {
+            return unsafe { huge_alloc(l.size()) };
+        }
         unsafe { std::alloc::System.alloc(l) }
     }
+    unsafe fn alloc_zeroed(&self, l: std::alloc::Layout) -> *mut u8 {
+        note_alloc(l.size(), 0);
+        if l.size() >= HUGE && l.align() <= 4096 {
+            // anonymous mappings are zero-filled; do not touch the pages
+            return unsafe { huge_alloc(l.size()) };
+        }
+        unsafe { std::alloc::System.alloc_zeroed(l) }
+    }
     unsafe fn dealloc(&self, p: *mut u8, l: std::alloc::Layout) {
-        let _ = LIVE.try_with(|c| c.set(c.get().wrapping_sub(l.size())));
+        note_alloc(0, l.size());
+        if l.size() >= HUGE && l.align() <= 4096 {
+            unsafe { munmap(p, l.size()) };
+            return;
+        }
         unsafe { std::alloc::System.dealloc(p, l) }
     }
     unsafe fn realloc(&self, p: *mut u8, l: std::alloc::Layout, new: usize) -> *mut u8 {
-        let _ = LIVE.try_with(|c| {
-            let v = c.get().wrapping_sub(l.size()).wrapping_add(new);
-            c.set(v);
-            let _ = PEAK.try_with(|pk| {
-                if v > pk.get() && v < (1usize << 60) {
-                    pk.set(v)
-                }
-            });
-        });
+        if (l.size() >= HUGE || new >= HUGE) && l.align() <= 4096 {
+            // move between the two kinds of memory by hand
+            let nl = unsafe { std::alloc::Layout::from_size_align_unchecked(new, l.align()) };
+            let np = unsafe { self.alloc(nl) };
+            if !np.is_null() {
+                unsafe { std::ptr::copy_nonoverlapping(p, np, l.size().min(new)) };
+                unsafe { self.dealloc(p, l) };
+            }
+            return np;
+        }
+        note_alloc(new, l.size());
         unsafe { std::alloc::System.realloc(p, l, new) }
     }
 }
